@@ -299,6 +299,10 @@ def decode(data, dict_size, preset_dict=b"", collect='stats', impl='auto'):
             ev['status'] = 'ok'
             continue
         hdr = 6 if ctl >= 0xC0 else 5
+        if ctl < 0xC0 and need_props:
+            # decidable from the control byte alone (a streaming decoder reports it before the size fields)
+            status = ev['status'] = 'error:props_needed'
+            break
         if n - ip < 5:
             status = 'need_more'
             break
@@ -317,9 +321,6 @@ def decode(data, dict_size, preset_dict=b"", collect='stats', impl='auto'):
                 break
             dec.set_props(lc, lp, pb)
             need_props = False
-        elif need_props:
-            status = ev['status'] = 'error:props_needed'
-            break
         elif ctl >= 0xA0:
             dec.reset_state()
         cstart = ip + hdr
